@@ -542,7 +542,15 @@ func (r *runningStep) provideEnablingInput(input map[string]any) error {
 	}
 	// Check to make sure it's enabled.
 	// This is an optional field, so no input means enabled.
-	enabled := input["enabled"] == nil || input["enabled"] == true
+	enabled := true
+	if input["enabled"] != nil {
+		// A literal value in the workflow file arrives as text ("true"); the field's schema reads both.
+		enabledValue, err := schema.NewBoolSchema().Unserialize(input["enabled"])
+		if err != nil {
+			return fmt.Errorf("invalid value for the enabled field (%w)", err)
+		}
+		enabled = enabledValue.(bool)
+	}
 	r.enabledInputAvailable = true
 	// Transition the state before unlocking so the step is not seen as waiting for input it has
 	// already been given.
